@@ -1,0 +1,15 @@
+//go:build verif
+
+package decimal128
+
+// VerifBits returns the raw 128 bits of d. It exists only under the verif
+// build tag as an observation channel for external verification harnesses.
+func VerifBits(d Decimal) (hi, lo uint64) {
+	return d.hi, d.lo
+}
+
+// VerifFromBits returns the Decimal with exactly the given bits. It exists
+// only under the verif build tag.
+func VerifFromBits(hi, lo uint64) Decimal {
+	return Decimal{lo: lo, hi: hi}
+}
